@@ -186,7 +186,9 @@ CHECKS["C16"] = {
     "pkg": "./core",
     "parallel": 4,
     "quick": [{"harness": "VerifC16Deadliner", "params": {"k": [2, 3]}, "prune": 1000, "timeout_ms": 120000},
-              {"harness": "VerifC16Burst", "params": {"burst": [3, 10, 11]}}],
+              {"harness": "VerifC16Burst", "params": {"burst": [3, 10, 11]}},
+              # the Add wrapper against an ideal loop: every call asks the loop and returns its answer (same: bit i = call i repeats call 0's duty)
+              {"harness": "VerifC16Add", "params": {"k": 3, "same": [0, 2, 6]}}],
     "thorough": [{"harness": "VerifC16Deadliner", "params": {"k": [2, 3, 4]}, "prune": 1000, "timeout_ms": 600000, "case_timeout_s": 14000},
                  {"harness": "VerifC16Burst", "params": {"burst": [1, 2, 3, 5, 8, 10, 11, 12, 13]}}],
     "bounds": {
